@@ -15,7 +15,7 @@ RULE = ("executable programs: (a) random nestings of loops (counts 0,1,2,3, let-
 ASSUMPTIONS = ["termination restated as bounded progress: budget = 20000 + 400 * (unrolled size + subcircuits * nodes) * (loop depth + 1) line events",
                "visit sequence judged only when no subcircuit straddles a loop boundary (others: termination and bookkeeping only)"]
 TIERS = {"quick": {"shards": 8, "budget_s": 50}, "thorough": {"shards": 16, "budget_s": 420}}
-REQUIRE = {"zero-loop-around-subcircuit": 30, "visit-sequences-compared": 300, "output-lists-compared": 300,
+REQUIRE = {"macros-expanded-before-overrides": 500, "job-executions-observed": 300, "zero-loop-around-subcircuit": 30, "visit-sequences-compared": 300, "output-lists-compared": 300,
            "let-count": 30, "override-count": 10, "readouts-observed": 1000}
 
 
@@ -42,6 +42,14 @@ def judge(case):
     budget = X.budget_for(P)
     info = {"subs": len(subs), "visits": len(visits), "straddle": bool(straddle), "n": s.n, "budget": budget}
     fails = []
+    if case.get("order") == "ML":
+        # macros expanded while the lets are still symbolic; the overrides are applied to the expanded circuit
+        om = lib.outcome(lib.expand_macros, s.c)
+        if om[0] != "ok":
+            return "skipped:expand-macros-first-rejected", [], info
+        s.c = om[1]
+    if case.get("job"):
+        return judge_job(s, ov, subs, straddle, info, budget)
     o = X.run(s, ov, seed=case.get("npseed", 1), budget=budget)
     if o[0] == "budget":
         return "ok", [("emulator-step-budget-exceeded", {"budget": budget, "unrolled": P.unrolled_size()})], info
@@ -87,6 +95,65 @@ def judge(case):
                     fails.append(("output-list:readout-carries-wrong-value", {"k": k, "expected": k % (2 ** s.n), "got": as_int}))
                     break
             info["outputs"] = nout
+    return "ok", fails, info
+
+
+def X_visits(s, subs):
+    return s.P.visits(subs)
+
+
+def judge_job(s, ov, subs, straddle, info, budget):
+    """The job interface: job = backend(circuit); job.execute() any number of times.  After every execution each
+    subcircuit's relative frequencies must count exactly the readouts attributed to it (bookkeeping clause only: the
+    statement does not say whether a re-executed job accumulates or starts over)."""
+    import numpy as np
+    from jaqalpaq.emulator.unitary import UnitarySerializedEmulator
+
+    c = s.c
+    if ov:
+        oo = lib.outcome(lib.fill_in_let, c, ov)
+        if oo[0] != "ok":
+            return "skipped:fill-in-let-rejected", [], info
+        c = oo[1]
+    o = lib.outcome(lambda: UnitarySerializedEmulator()(lib.expand_subcircuits(c)))
+    if o[0] != "ok":
+        return "skipped:job-not-created:" + o[1], [], info
+    job = o[1]
+    fails = []
+    info["job_executions"] = 0
+    for k in range(3):
+        np.random.seed(k + 1)
+        o = lib.budgeted(job.execute, budget)
+        if o[0] == "budget":
+            return "ok", [("job:step-budget-exceeded", {"execution": k + 1})], info
+        if o[0] != "ok":
+            if o[0] == "exc":
+                fails.append(("job:execute-raised:" + o[1], {"execution": k + 1, "error": o[2]}))
+            return "ok", fails, info
+        info["job_executions"] += 1
+        res = o[1]
+        info["readouts"] = len(res.readouts)
+        for i, sc in enumerate(res.subcircuits):
+            own = list(sc.readouts)  # the readouts the subcircuit itself lists (a re-executed job may keep the earlier ones)
+            counts = np.zeros(2 ** s.n)
+            for r in own:
+                if 0 <= r.as_int < 2 ** s.n:
+                    counts[r.as_int] += 1
+            got = np.asarray(sc.relative_frequency_by_int, dtype=float)
+            if got.shape != counts.shape or not np.array_equal(got, counts):
+                fails.append(("job:relative-frequencies-do-not-count-own-readouts", {"execution": k + 1, "subcircuit": i,
+                                                                                    "own_readouts": len(own), "frequencies": got.tolist()}))
+                return "ok", fails, info
+            if any(r.subcircuit is not sc for r in own):
+                fails.append(("job:readout-listed-by-another-subcircuit", {"execution": k + 1, "subcircuit": i}))
+                return "ok", fails, info
+        # the readouts of this execution, in order, one per visit
+        if not straddle:
+            seq = [r.subcircuit.index for r in res.readouts]
+            vis = X_visits(s, subs)
+            if seq[-len(vis):] != vis if vis else False:
+                fails.append(("job:visit-sequence", {"execution": k + 1, "expected": vis[:20], "got": seq[-len(vis):][:20]}))
+                return "ok", fails, info
     return "ok", fails, info
 
 
@@ -148,6 +215,13 @@ def process(ctx, case, seen):
         return
     rec.count("judged")
     rec.count("readouts-observed", info.get("readouts", 0))
+    if case.get("order") == "ML":
+        rec.count("macros-expanded-before-overrides")
+    if case.get("job"):
+        rec.count("job-executions-observed", info.get("job_executions", 0))
+        for clause, detail in fails:
+            rec.violation(sig("C08", clause), detail, case)
+        return
     if "steps" in info:
         rec.maximum("max_steps_over_budget", round(info["steps"] / info["budget"], 4))
     if "steps_out" in info:
@@ -178,6 +252,8 @@ def process(ctx, case, seen):
         feats = prog_features(small)
         if zero_loop_around_sub(small):
             feats.add("zero-loop-around-subcircuit")
+        if small_case.get("order") == "ML":
+            feats.add("macros-expanded-before-overrides")
         rec.violation(sig("C08", clause, feats), d2[0][1] if d2 else detail, small_case)
 
 
@@ -218,6 +294,11 @@ def shard(ctx):
             ov = count_override(rng, prog)
             if ov:
                 case["ov"] = ov
+        r = rng.random()
+        if r < 0.2:
+            case["order"] = "ML"
+        elif r < 0.3:
+            case["job"] = True
         process(ctx, case, seen)
         if i <= 3:
             rec.sample({"ov": case.get("ov"), "text": sx.to_text(prog)})
